@@ -248,13 +248,13 @@ pub fn check(c: &Case, obs: &mut Obs) -> Verdict {
 }
 
 fn run(ctx: &Ctx) {
-    if !ctx.run_prop("splits", RULE, ctx.cases(1500, 140_000), strat_split, check) {
+    if !ctx.run_prop("splits", RULE, ctx.cases(1500, 420_000), strat_split, check) {
         return;
     }
-    if !ctx.run_prop("splits_with_asset_events", RULE, ctx.cases(800, 80_000), strat_events, check) {
+    if !ctx.run_prop("splits_with_asset_events", RULE, ctx.cases(800, 240_000), strat_events, check) {
         return;
     }
-    ctx.run_prop("splits_shuffled", RULE, ctx.cases(600, 80_000), strat_shuffled, check);
+    ctx.run_prop("splits_shuffled", RULE, ctx.cases(600, 240_000), strat_shuffled, check);
 }
 
 fn replay(name: &str, case: &Value) -> Option<Verdict> {
